@@ -43,7 +43,7 @@ import oracle
 from ser import Ids, Ser, Unsupported, ser, deser
 
 LEAN_MODULE = "Optyx.Props.C04"
-EXTRA_MODULES = ["Optyx.Props.PinsC04"]   # transcription anchors (harness/source_pins.py)
+EXTRA_MODULES = ["Optyx.Props.PinsC04", "Optyx.Props.DegreeEntryTie"]   # transcription anchors (harness/source_pins.py)
 THEOREMS = [
     "Optyx.Props.C04.degree_sound",
     "Optyx.Props.C04.isLinear_affine",
@@ -58,6 +58,12 @@ THEOREMS = [
     "Optyx.Props.DegreeTie.step_unique",
     "Optyx.Props.DegreeTie.step_eq",
     "Optyx.Props.DegreeTie.degIterFrame_text",
+    "Optyx.Props.DegreeEntryTie.isLinear_eq",
+    "Optyx.Props.DegreeEntryTie.isQuadratic_eq",
+    "Optyx.Props.DegreeEntryTie.computeDegree_eq",
+    "Optyx.Props.DegreeEntryTie.encodeDeg_eq",
+    "Optyx.Props.DegreeEntryTie.readDegree_int",
+    "Optyx.Props.DegreeEntryTie.slot_roundtrip",
     "Optyx.Props.PinsC04.anchors",
 ]
 ASSUMPTIONS = [
